@@ -192,6 +192,7 @@ def prop_C15(ctx, tier):
     run.exhaustive = {'flavours': 3, 'policies': 6, 'bound presence': 8, 'scenarios': ['absent', 'fresh', 'expired(ttl=Some)']}
     S.check_stats_shapes(run, ctx)
     W.check_stats_registration(run, ctx)
+    W.check_wrapper_no_direct_stats(run, ctx)
     from . import rules_l as L
     L.check_no_try_locks(run, ctx.world, 'C15-E3', only=lambda b: b.crate is ctx.core)
     return run
@@ -270,6 +271,7 @@ def prop_C04(ctx, tier):
     K.check_lookup_expiry(run, ctx)  # expired purge leaves both (P2)
     S.check_random_victim(run, ctx)
     S.check_queue_dedupe(run, ctx)
+    K.check_requeue_scenario(run, ctx, 'C04-P3')
     S.check_victim_key_identity(run, ctx, 'C04-P5')
     _also_nostats(ctx, tier, run, [K.check_overflow_form, K.check_overflow_test_on_every_path, K.check_one_victim, K.check_store_pairing,
                                     K.check_replacement_before_overflow_test, S.check_random_victim, S.check_queue_dedupe])
